@@ -151,6 +151,9 @@ def run(seed=0, rounds=400):
     except KeyError:
         trace.append('propagated')
     check('contextmanager-runs-the-body-at-the-yield-and-raises-its-exception-there', trace == ['enter', 'body', 'exit', 'propagated'], trace)
+    from native import axioms_c14  # externals of the C14 extension contracts (mask rank function, math.fsum/sqrt, float ** 2)
+    for _ in range(rounds):
+        axioms_c14.run(check, rng, int(rng.randint(0, 7)))
     print('AXIOMS ' + json.dumps(dict(rounds=rounds, failures=fails[:5])))
     return not fails
 
